@@ -55,7 +55,7 @@ class C11(Check):
     )
     assumptions = [
         "methods do not suspend (interleavings are C10's subject), so execution logs are compared as sequences",
-        "BaseException outcomes use the same harness class on both halves (asyncio.CancelledError has no sync counterpart)",
+        "BaseException outcomes use the same class on both halves: a harness BaseException subclass, or asyncio.CancelledError raised by the transport of either client",
         "random-based id generators are reseeded identically before each half; the uuid generator is not used here",
     ]
     trusted_base = ['none beyond the harness: both halves are the implementation under test']
@@ -72,14 +72,15 @@ class C11(Check):
                                                       'custom_classes': bool(s.get('custom_classes'))})
         s_codec = st.sampled_from(['default', 'default'] + ch.CODECS[1:])
         s_strict = st.sampled_from([True, True, False])
-        s19 = st.tuples(c19.CHECK.strategy(tier), s_codec, s_strict).map(lambda t: {**t[0], 'kind': 'client-script', 'codec': t[1], 'strict': t[2]})
+        s_base = st.sampled_from(['HarnessBaseExc', 'CancelledError'])
+        s19 = st.tuples(c19.CHECK.strategy(tier), s_codec, s_strict, s_base).map(lambda t: {**t[0], 'kind': 'client-script', 'codec': t[1], 'strict': t[2], 'base_exc': t[3]})
         s09 = st.tuples(c09.CHECK.strategy(tier), s_codec, s_strict).map(lambda t: {**t[0], 'kind': 'client-retry', 'codec': t[1], 'strict': t[2]})
         s07 = c07.CHECK.strategy(tier).filter(lambda s: s['id_gen']['kind'] != 'uuid').map(lambda s: {**s, 'kind': 'client-notation'})
         # a batch object nothing was added to, sent through every batch notation (both halves must do the same thing with it)
         s_empty = st.builds(lambda n, strict, d: {'kind': 'client-notation', 'client': 'sync', 'dispatcher': d, 'strict': strict, 'id_gen': {'kind': 'sequential', 'start': 1, 'step': 1},
                                                   'notation': n, 'other': None, 'plan': [], 'behaviours': {}, 'seed': 0},
                             st.sampled_from(c07.BATCH_NOTATIONS), st.booleans(), st.sampled_from(['sync', 'async']))
-        return st.one_of(server_plain(), server_plain(), s12, s19, s09, s07, s07, s07, s07, s_empty)
+        return jg.weighted(server_plain(), server_plain(), s12, s19, s09, s07, s07, s07, s07, s_empty)
 
     def corpus(self):
         t = lambda doc: {'doc': doc, 'ascii': True, 'indent': 0, 'pad': '', 'huge': None, 'mangle': None}  # noqa: E731
@@ -104,6 +105,10 @@ class C11(Check):
         for rk in ('notification', 'single', 'batch'):
             for word in (['not-response', 'ok'], ['scalar-body', 'ok'], ['identity', 'ok'], ['not-json', 'ok']):
                 out.append({'kind': 'client-script', 'strict': False, 'request': rk, 'outcomes': word, 'tracers': 1, 'ctx': 'default', 'strategy': None})
+        # a transport that is cancelled / interrupted: both halves tell the tracers and re-raise
+        for rk in ('notification', 'single', 'batch'):
+            for be in ('HarnessBaseExc', 'CancelledError'):
+                out.append({'kind': 'client-script', 'base_exc': be, 'request': rk, 'outcomes': ['base-exc', 'ok'], 'tracers': 2, 'ctx': 'default', 'strategy': None})
         # scripted clients with an application JSON codec, every request kind
         for codec in ch.CODECS[1:]:
             for rk in ('single', 'batch', 'notification'):
@@ -200,7 +205,8 @@ class C11(Check):
             if o['kind'] == 'exc':
                 raise ch.EXC[o['exc']](f"attempt {k}")
             if o['kind'] == 'base':
-                raise ch.HarnessBaseExc(f"attempt {k}")
+                # the same class on both halves: a harness BaseException subclass or asyncio's cancellation (the property's own example)
+                raise ch.EXC[spec.get('base_exc', 'HarnessBaseExc')](f"attempt {k}")
             if o['kind'] == 'body':
                 return o['body']
             if is_notification:
